@@ -12,6 +12,7 @@ from . import common, molprops
 
 SPEC = {
     "level": "exploration",
+    "level_text": "Exploration: a post-condition on serialize_molecule parses every emitted string back with the library parser and compares with the ARGUMENT through an independent matcher, cross-checks the reference reader's labelled graph, and re-runs the pipeline for the fixed point. Evaluated on every serialize call of the workload (graphs in label order, in shuffled order, already canonical).",
     "suite_under_monitor": True,
     "technique": "runtime contract (icontract ensure) on serialize_molecule: parse-back, independent isomorphism matcher, fixed-point re-run",
     "rule": ("cases: M1 n<=4, M2, M3, M4, M5 (formulas whose symbol order differs from atomic-number order, counts 1..12, shared-prefix symbols), M5all "
